@@ -604,6 +604,11 @@ def do_graph(p, keep):
     try:
         if site == "deepcopy":
             new = copy.deepcopy(proc)
+        elif site == "pickle":
+            import pickle
+
+            # the route by which a processor reaches a run under a multi-process / distributed scheduler
+            new = pickle.loads(pickle.dumps(proc))
         elif site == "replace":
             new = proc.replace(params)
         elif site == "create_new_processor":
